@@ -755,15 +755,11 @@ peg::parser! {
                 BraceExpressionMember::CharSequence { start, end, increment: increment.unwrap_or(1) }
             }
 
-        rule number() -> i64 = sign:number_sign()? n:$(['0'..='9']+) {
-            let sign = sign.unwrap_or(1);
-            let num: i64 = n.parse().unwrap();
-            num * sign
+        // N.B. A number that does not fit the integer type does not make a sequence
+        // expression (the braces then stay literal text), so the rule fails on it.
+        rule number() -> i64 = n:$(['-' | '+']? ['0'..='9']+) {?
+            n.parse::<i64>().or(Err("number in range"))
         }
-
-        rule number_sign() -> i64 =
-            ['-'] { -1 } /
-            ['+'] { 1 }
 
         rule character() -> char = ['a'..='z' | 'A'..='Z']
 
